@@ -54,7 +54,15 @@ namespace svmon
       size_t bytes = n * elem_size;
       size_t front = REDZONE;
       while (front % align) ++front;
-      unsigned char *raw = static_cast<unsigned char *> (std::malloc (front + bytes + REDZONE));
+      unsigned char *raw = 0;
+      if (align > 16)
+      {
+        void *m = 0;                                  // over-aligned element types: the block itself must start aligned
+        if (posix_memalign (&m, align, front + bytes + REDZONE)) m = 0;
+        raw = static_cast<unsigned char *> (m);
+      }
+      else
+        raw = static_cast<unsigned char *> (std::malloc (front + bytes + REDZONE));
       if (! raw) { std::fputs ("svmon: ledger out of memory\n", stderr); std::abort (); }
       std::memset (raw, CANARY, front);
       static const bool no_poison = std::getenv ("SVMON_NO_POISON") != 0;   // valgrind runs: keep fresh blocks "undefined"
